@@ -323,7 +323,9 @@ class YamlItem(pytest.Item):
         actual_value = self.simulation.calculate(variable_name, period)
 
         if entity_index is not None:
-            actual_value = actual_value[entity_index]
+            # Select the instance as a one-element array, so that the value
+            # keeps its type (an enum stays an EnumArray).
+            actual_value = actual_value[entity_index : entity_index + 1]
 
         return assert_near(
             actual_value,
